@@ -15,7 +15,8 @@ RULE = ('Generated decks with 1-3 base cells carrying every option family '
         'number / inline / starred) and 1-4 LIKE n BUT cells overriding any '
         'subset of {mat, rho, u, fill (+transformation), trcl/*trcl, imp}, in '
         'chains of length 1-3 (LIKE of LIKE), referring to earlier or later '
-        'cells. The expanded deck is produced from the model (copy of the '
+        'cells; in a third of the cases the importances are on an IMP:N data '
+        'card with an entry of its own for every LIKE cell. The expanded deck is produced from the model (copy of the '
         'base + overrides), never by text substitution. Metamorphic oracle: '
         'the written files of the LIKE deck and of the expanded deck have '
         'identical GEOMETRY / BOUNDARY_CONDITION text and numerically '
@@ -25,8 +26,7 @@ RULE = ('Generated decks with 1-3 base cells carrying every option family '
 ASSUMPTIONS = [
     'semantics of LIKE n BUT as stated in the property: copy cell n, then '
     'override the listed parameters (later value wins)',
-    'mat=0 overrides are not generated (they would also need the density to '
-    'be removed, which MCNP expresses differently)',
+    'LIKE n BUT MAT=0 makes the copy void whatever density the chain carries',
 ]
 
 
